@@ -109,7 +109,7 @@ def main(argv):
                      "name =/!=/in/contains <literal> over the value and its near misses. Non-trivial: contains a backslash, "
                      "quote or control character (L), a backslash (T), any body (B), any expressible E case; distinct by case text"
                      % (5 if c.thorough else 4))
-    c.cov["samples"] = [dict(case=cases[k], impl=impl[k], model=modl[k]) for k in (0, 1, len(cases) // 2, len(cases) - 1)]
+    c.cov["samples"] = [dict(case=cases[k], impl=impl[k], model=modl[k]) for k in sorted(set((0, min(1, len(cases) - 1), len(cases) // 2, len(cases) - 1)))]
     try:
         c.cov["input_distribution"] = json.load(open(os.path.join(c.work, "stats.json")))
     except Exception:
